@@ -29,6 +29,8 @@ type Program struct {
 	Files     []string // contract files read
 	TypesPkgs map[string]*types.Package
 	ImportAliases map[string]map[string]string // package path -> import alias -> imported path
+	GhostFields   map[string]map[string]GhostField // "pkgpath.Type" -> field name -> declaration
+	allFns        map[*ssa.Function]bool
 }
 
 const repoRoot = "/repo"
@@ -69,7 +71,7 @@ func LoadProgram(moduleDir string, patterns []string, specFiles []string) (*Prog
 	prog, ssaPkgs := ssautil.Packages(pkgs, ssa.GlobalDebug|ssa.BareInits)
 	prog.Build()
 	P := &Program{Fset: fset, Pkgs: pkgs, SSA: prog, SSAPkgs: map[string]*ssa.Package{}, Contracts: map[string]*FuncContract{},
-		SpecFuncs: map[string]*SpecFunc{}, Ghosts: map[string]GhostVar{}, TypesPkgs: map[string]*types.Package{}, ImportAliases: map[string]map[string]string{}}
+		SpecFuncs: map[string]*SpecFunc{}, Ghosts: map[string]GhostVar{}, TypesPkgs: map[string]*types.Package{}, ImportAliases: map[string]map[string]string{}, GhostFields: map[string]map[string]GhostField{}}
 	for i, p := range pkgs {
 		if ssaPkgs[i] == nil {
 			return nil, fmt.Errorf("no SSA for %s", p.PkgPath)
@@ -117,6 +119,7 @@ func LoadProgram(moduleDir string, patterns []string, specFiles []string) (*Prog
 			return nil, err
 		}
 	}
+	P.allFunctions() // computed once here: later readers run concurrently
 	return P, nil
 }
 
@@ -135,6 +138,17 @@ func (P *Program) addContracts(cf *ContractFile, pkgPath string) error {
 	}
 	for _, g := range cf.Ghosts {
 		P.Ghosts[g.Name] = g
+	}
+	for _, gf := range cf.GhostFields {
+		gf.Pkg = pkgPath
+		key := pkgPath + "." + gf.Struct
+		if strings.Contains(gf.Struct, ".") || pkgPath == "" {
+			key = gf.Struct // fully qualified (spec files)
+		}
+		if P.GhostFields[key] == nil {
+			P.GhostFields[key] = map[string]GhostField{}
+		}
+		P.GhostFields[key][gf.Name] = gf
 	}
 	for _, f := range cf.Funcs {
 		key := f.Name
@@ -165,19 +179,90 @@ func qualifyFuncName(name, pkgPath string) string {
 	return pkgPath + "." + name
 }
 
+// allFunctions is ssautil.AllFunctions plus the methods of generic named types of the loaded packages (which
+// AllFunctions omits because parameterized types have no runtime method sets) and their closures.
+func (P *Program) allFunctions() map[*ssa.Function]bool {
+	if P.allFns != nil {
+		return P.allFns
+	}
+	all := ssautil.AllFunctions(P.SSA)
+	var add func(fn *ssa.Function)
+	add = func(fn *ssa.Function) {
+		if fn == nil || all[fn] {
+			return
+		}
+		all[fn] = true
+		for _, a := range fn.AnonFuncs {
+			add(a)
+		}
+	}
+	for _, tp := range P.TypesPkgs {
+		sc := tp.Scope()
+		for _, n := range sc.Names() {
+			tn, ok := sc.Lookup(n).(*types.TypeName)
+			if !ok {
+				continue
+			}
+			named, ok := tn.Type().(*types.Named)
+			if !ok || named.TypeParams().Len() == 0 {
+				continue
+			}
+			for i := 0; i < named.NumMethods(); i++ {
+				add(P.SSA.FuncValue(named.Method(i)))
+			}
+		}
+	}
+	P.allFns = all
+	return all
+}
+
 // FindFunc finds an SSA function by its full name among loaded packages (including methods and anonymous functions).
 func (P *Program) FindFunc(full string) *ssa.Function {
-	for fn := range ssautil.AllFunctions(P.SSA) {
+	for fn := range P.allFunctions() {
 		if fn.String() == full {
+			return fn
+		}
+	}
+	// generic functions and methods of generic types: contracts name them without the type parameter list
+	// and are checked on the generic body (type parameters become uninterpreted sorts)
+	for fn := range P.allFunctions() {
+		if fn.Origin() == nil && len(fn.TypeArgs()) == 0 && stripTypeParams(fn.String()) == full && fn.String() != full {
 			return fn
 		}
 	}
 	return nil
 }
 
+// stripTypeParams removes "[K, V]"-style type parameter lists that follow an identifier.
+func stripTypeParams(s string) string {
+	var b strings.Builder
+	depth := 0
+	for i := 0; i < len(s); i++ {
+		ch := s[i]
+		if ch == '[' && i > 0 && (isIdentByte(s[i-1])) && i+1 < len(s) && s[i+1] != ']' {
+			depth++
+			continue
+		}
+		if depth > 0 {
+			if ch == '[' {
+				depth++
+			} else if ch == ']' {
+				depth--
+			}
+			continue
+		}
+		b.WriteByte(ch)
+	}
+	return b.String()
+}
+
+func isIdentByte(c byte) bool {
+	return c == '_' || (c >= '0' && c <= '9') || (c >= 'a' && c <= 'z') || (c >= 'A' && c <= 'Z')
+}
+
 func (P *Program) AllSourceFuncs() []*ssa.Function {
 	var out []*ssa.Function
-	for fn := range ssautil.AllFunctions(P.SSA) {
+	for fn := range P.allFunctions() {
 		if fn.Blocks != nil && fn.Pkg != nil && P.SSAPkgs[fn.Pkg.Pkg.Path()] == fn.Pkg {
 			out = append(out, fn)
 		}
@@ -194,5 +279,11 @@ func (P *Program) contractFor(fn *ssa.Function) *FuncContract {
 	if o := fn.Origin(); o != nil {
 		fn = o
 	}
-	return P.Contracts[fn.String()]
+	if ct, ok := P.Contracts[fn.String()]; ok {
+		return ct
+	}
+	if fn.TypeParams().Len() > 0 || strings.Contains(fn.String(), "[") {
+		return P.Contracts[stripTypeParams(fn.String())]
+	}
+	return nil
 }
